@@ -15,6 +15,7 @@ CONSTANTS
   TreeStart = TRUE
   Ends = {0, 2, 3, 5}
   Aheads = {0, 1}
+  Lags = {0}
   MaxFaults = 0
   FaultBudgets = {0}
   MaxRestarts = 0
